@@ -21,17 +21,28 @@ def Fmt.ok (f : Fmt) : Bool := f.n = 1 || f.n = 2 || f.n = 4 || f.n = 8
 
 def M64 : Nat := 2 ^ 64
 
-/-- the register after `dest = var`: `long` = destination is a 64-bit register view (r/sr), else 32-bit (w/sw) -/
-def readReg (f : Fmt) (long : Bool) (bs : List UInt8) : Nat :=
-  let raw := decLE bs
-  -- `load`: shift pair only for h, b and (when long) i
+/-- the sign-extension shift pair `load` / `Memory.calculate` append for h, b and (when long) i -/
+def sext (f : Fmt) (long : Bool) (raw : Nat) : Nat :=
   let ext : Bool := f.signed && (f.n ≤ 2 || (f.n = 4 && long))
   let w := if long then 64 else 32
-  let v1 := if ext && decide (2 ^ (8 * f.n - 1) ≤ raw) then raw + 2 ^ w - 2 ^ (8 * f.n) else raw
+  if ext && decide (2 ^ (8 * f.n - 1) ≤ raw) then raw + 2 ^ w - 2 ^ (8 * f.n) else raw
+
+/-- the register after `dest = var`: `long` = destination is a 64-bit register view (r/sr), else 32-bit (w/sw).
+Explicit byte order: unsigned load, LE/BE instruction (none for one byte), then the sign extension. -/
+def readReg (f : Fmt) (long : Bool) (bs : List UInt8) : Nat :=
+  let raw := decLE bs
+  match f.order with
+  | .native => sext f long raw
+  | .le => sext f long (if f.n = 1 then raw else raw % 2 ^ (8 * f.n))                      -- LE instruction: truncate
+  | .be => sext f long (if f.n = 1 then raw else decBE (encLE f.n (raw % 2 ^ (8 * f.n))))  -- BE instruction: swap
+
+/-- what the code before the `fix:` commit computed for explicit byte orders: sign extension BEFORE the swap -/
+def readRegOld (f : Fmt) (long : Bool) (bs : List UInt8) : Nat :=
+  let v1 := sext f long (decLE bs)
   match f.order with
   | .native => v1
-  | .le => if f.n = 1 then v1 else v1 % 2 ^ (8 * f.n)       -- LE instruction: truncate (none for one byte)
-  | .be => if f.n = 1 then v1 else decBE (encLE f.n (v1 % 2 ^ (8 * f.n)))   -- BE instruction: swap the low n bytes
+  | .le => if f.n = 1 then v1 else v1 % 2 ^ (8 * f.n)
+  | .be => if f.n = 1 then v1 else decBE (encLE f.n (v1 % 2 ^ (8 * f.n)))
 
 /-- the bytes stored by `var = register value v` -/
 def writeBytes (f : Fmt) (v : Nat) : List UInt8 :=
@@ -56,7 +67,8 @@ def packZ (f : Fmt) (v : Int) : List UInt8 :=
   | .be => encBE f.n (ofSigned f.n v)
   | _ => encLE f.n (ofSigned f.n v)
 
-/-- known-finding class: explicit byte order, signed, narrower than the destination -/
+/-- (historical) the class in which the code before the `fix:` commit failed: explicit byte order, signed, narrower
+than the destination -/
 def SignedExplicit (f : Fmt) (long : Bool) : Prop :=
   f.order ≠ .native ∧ f.signed = true ∧ 1 < f.n ∧ 8 * f.n < (if long then 64 else 32)
 
